@@ -13,7 +13,7 @@ RULE = ("clusters: n_clusters 2..4, KMeans and MiniBatchKMeans, deterministic le
         "histories of fit / partial_fit (full refit) / add_arm / remove_arm; oracle: the query's cell is the set of "
         "stored rows i with kmeans.labels_[i] == kmeans.predict(q) on the fitted object mab._imp.kmeans, and the "
         "expectations must equal a fresh bandit (same learning policy, current arms) fit on those rows in stored "
-        "order. tree: tree_parameters in {{}, max_depth, min_samples_leaf, splitter=random, max_features, "
+        "order. tree: tree_parameters in {{}, max_depth, min_samples_leaf, splitter=random, max_features, criterion (absolute_error, friedman_mse), min_impurity_decrease, ccp_alpha, min_samples_split, "
         "max_leaf_nodes}, EpsilonGreedy(0) and UCB1, histories with arms first seen in a partial_fit and arm changes; "
         "oracle: per arm the leaf is arm_to_tree[arm].apply(q), the expectation is the reference statistic (mean; "
         "mean + alpha*sqrt(2 ln n / n)) over that arm's stored rewards whose contexts fall in that leaf, 0 for an arm "
@@ -195,7 +195,12 @@ def _added_since_training(plan):
 
 TREE_PARAMS = [{}, {"max_depth": 2}, {"min_samples_leaf": 2}, {"max_depth": 1}, {"splitter": "random"},
                {"max_features": 1}, {"max_leaf_nodes": 3}, {"random_state": None, "max_features": 1},
-               {"random_state": 5, "splitter": "random"}]
+               {"random_state": 5, "splitter": "random"},
+               # other split criteria (the value scikit-learn keeps in a node is then not the mean of the leaf) and
+               # pruning / stopping parameters
+               {"criterion": "absolute_error", "max_depth": 1}, {"criterion": "absolute_error", "min_samples_leaf": 3},
+               {"criterion": "absolute_error", "max_leaf_nodes": 2}, {"criterion": "friedman_mse", "max_leaf_nodes": 2},
+               {"min_impurity_decrease": 0.5}, {"ccp_alpha": 0.1}, {"min_samples_split": 4}]
 
 
 @st.composite
